@@ -24,7 +24,7 @@ MCDims ==
     cfgx |-> {"garbage", "on-rpc-input", "true-under-false"},
     rev |-> {"garbage-date", "two-same", "import-by-absent-revision"},
     idref |-> {"no-base", "base-absent", "base-unknown-prefix", "in-typedef-cycle"},
-    frac |-> {"zero", "nineteen", "on-string", "missing", "restated-in-derived"} ]
+    frac |-> {"zero", "nineteen", "on-string", "missing", "restated-in-derived", "sixty-four-min-max", "two-five-five-max", "forty", "huge"} ]
 MCDimSeq == <<"td1", "td2", "td3", "gr1", "gr2", "gr3", "id1", "id2", "id3", "incm", "incs1", "incs2", "belongs", "imp", "aug", "augpay",
               "dev", "devkind", "top", "meta", "leafref", "choice", "key", "union", "enumx", "range", "rpcx", "ext", "listx", "cfgx", "rev", "idref", "frac">>
 ASSUME {MCDimSeq[k] : k \in 1..Len(MCDimSeq)} = DOMAIN MCDims
